@@ -378,3 +378,122 @@ Proof.
   intro p. rewrite Hf. unfold sp_final.
   apply fold_sstep_ext. split; [intro q; symmetry; apply Hd2|]. split; [exact I|reflexivity].
 Qed.
+
+(* ------------------------------------------------------------------ the state a zone file builds, from its records *)
+From DV Require Import C08.ProofsGroup.
+
+Definition zf_of_state (s : state) : zonefile := match s_zf s with Some zf => zf | None => zf_empty end.
+
+Lemma zf_insert_total g zf : (exists zf', zf_insert g zf = Ok zf') \/ (exists e, zf_insert g zf = Err e).
+Proof.
+  unfold zf_insert.
+  repeat match goal with
+         | |- context [if ?b then _ else _] => destruct b
+         | |- context [match alookup ?k ?l with _ => _ end] => destruct (alookup k l)
+         | |- context [match (if ?b then _ else _) with _ => _ end] => destruct b
+         end; eauto.
+Qed.
+
+Lemma run_zrecs_state : forall rs i s, s_built s = false -> s_work s = None -> s_builder s = empty_node ->
+  s_comm (run_from i s (map OZRec rs)) =
+  (let zf := fold_left (fun zf g => match zf_insert g zf with Ok zf' => zf' | _ => zf end) rs (zf_of_state s) in
+   match rs, s_zf s with
+   | [], None => empty_node
+   | _, _ => if snd (zf_build zf) then fst (zf_build zf) else empty_node
+   end).
+Proof.
+  induction rs as [|g rs IH]; intros i s Hb Hw Hbu.
+  - simpl. unfold finish_build, zf_of_state. rewrite Hb. destruct (s_zf s) as [zf|].
+    + destruct (zf_build zf) as [z ok]. destruct ok; unfold rollback; simpl; [reflexivity|exact Hbu].
+    + unfold rollback. simpl. exact Hbu.
+  - cbn [map run_from]. rewrite IH.
+    + assert (Ez : s_zf (step i s (OZRec g)) = Some (match zf_insert g (zf_of_state s) with Ok zf' => zf' | _ => zf_of_state s end)).
+      { unfold step, zf_of_state. cbn [is_history]. destruct (zf_insert_total g (match s_zf s with Some zf => zf | None => zf_empty end)) as [[zf' E]|[e E]]; rewrite E; reflexivity. }
+      unfold zf_of_state at 1. rewrite Ez. cbn [fold_left].
+      destruct rs; reflexivity.
+    + unfold step. cbn [is_history]. destruct (zf_insert_total g (match s_zf s with Some zf => zf | None => zf_empty end)) as [[zf' E]|[e E]]; rewrite E; simpl; auto.
+    + unfold step. cbn [is_history]. destruct (zf_insert_total g (match s_zf s with Some zf => zf | None => zf_empty end)) as [[zf' E]|[e E]]; rewrite E; simpl; auto.
+    + unfold step. cbn [is_history]. destruct (zf_insert_total g (match s_zf s with Some zf => zf | None => zf_empty end)) as [[zf' E]|[e E]]; rewrite E; simpl; auto.
+Qed.
+
+Lemma run_zone_file rs : run (map OZRec rs) = if snd (zf_build (zf_of_records rs)) then build rs else empty_node.
+Proof.
+  unfold run, run_ops. rewrite run_zrecs_state by reflexivity. unfold build, zf_of_records, zf_of_state. simpl.
+  destruct rs; reflexivity.
+Qed.
+
+(* delegation / alias state of a zone file, read off its (grouped) records *)
+Definition zf_state (zf : zonefile) : sfun := fun p => i_special (info_at_g (zf_normal zf) zf p).
+
+Theorem zone_file_state rs : accepted rs = true -> buildable (zf_of_records rs) = true ->
+  forall p, cspecial_at (run (map OZRec rs)) p = zf_state (zf_of_records rs) p.
+Proof.
+  intros Ha Hb p. destruct (accepted_records_build rs Ha) as (Hwf & Hok & _).
+  rewrite run_zone_file, Hok, Hb. rewrite Hb in Hwf.
+  destruct (build_view _ Hwf) as [_ Hv]. specialize (Hv p). unfold build.
+  unfold view_of, flat_view, flat_view_g in Hv. unfold cspecial_at, zf_state.
+  destruct (node_at (fst (zf_build (zf_of_records rs))) p) as [x|]; simpl in Hv.
+  - destruct (exists_name (zf_of_records rs) p); [|discriminate].
+    assert (Hi : info_of x = info_at_g (zf_normal (zf_of_records rs)) (zf_of_records rs) p) by congruence.
+    rewrite <- Hi. simpl. destruct (n_special x) as [[c|c|]|] eqn:Es; try reflexivity.
+    exfalso. apply (flat_special_not_marker (zf_normal (zf_of_records rs)) (zf_of_records rs) p). rewrite <- Hi. exact Es.
+  - destruct (exists_name (zf_of_records rs) p) eqn:Ee; [discriminate|].
+    rewrite (info_not_exists _ _ _ Ee). reflexivity.
+Qed.
+
+Lemma zone_file_only_map rs : zone_file_only (map OZRec rs) = true.
+Proof. induction rs; simpl; auto. Qed.
+
+(* History independence with delegations, premises on content only: a zone
+   file (record list [rs]) followed by operations that may replace everything,
+   cut, alias, clear -- answers like any tree with unique labels that has the
+   same RRsets and the delegation / alias state the operations prescribe. *)
+Theorem ext_safe_history_independent rs us t :
+  accepted rs = true -> buildable (zf_of_records rs) = true -> forallb ext_safe_op us = true ->
+  wfu t -> (forall p, rrsets_at (run (map OZRec rs ++ us)) p = rrsets_at t p) ->
+  (forall p, cspecial_at t p = sp_final us (zf_state (zf_of_records rs)) p) ->
+  cspecial_at t [] = None ->
+  forall q qt, query (run (map OZRec rs ++ us)) q qt = query t q qt.
+Proof.
+  intros Ha Hb Hu Ht HR HS H0.
+  destruct (ext_safe_history_state (map OZRec rs) us (zone_file_only_map rs) Hu) as [Hw Hc].
+  assert (HS' : forall p, cspecial_at (run (map OZRec rs ++ us)) p = cspecial_at t p).
+  { intro p. rewrite Hc, HS. unfold sp_final. apply fold_sstep_ext.
+    split; [intro x; apply zone_file_state; assumption|]. split; [exact I|reflexivity]. }
+  apply same_state_same_answers; auto. rewrite HS'. exact H0.
+Qed.
+
+(* non-vacuity: replace everything, re-add, cut through the write interface *)
+Definition rs_ex2 : list grec := [soa1; mkG [lsub] rt_ns 300 (mkRd 0 (Some [lsub; lns])); mkG [lsub; lns] T_A 77 (tok 7); mkG [lfoo] T_A 101 (tok 4)].
+Definition cut_ex2 : zcut := mkCut [lal] (mkRrset rt_ns 300 [tok 9]) None [].
+Definition us_ex2 : list op :=
+  [OUNew; OUDelAll; OUAdd (mkG [lfoo] T_A 101 (tok 4)); OUFin 60 (tok 2); OWOpen; OWCut [lal] cut_ex2; OWRemoveAll [lfoo]; OWCommit].
+Example ext_safe_example :
+  accepted rs_ex2 = true /\ buildable (zf_of_records rs_ex2) = true /\ forallb ext_safe_op us_ex2 = true /\
+  sp_final us_ex2 (zf_state (zf_of_records rs_ex2)) [lsub] = None /\
+  sp_final us_ex2 (zf_state (zf_of_records rs_ex2)) [lal] = Some (Cut cut_ex2) /\
+  cspecial_at (run (map OZRec rs_ex2 ++ us_ex2)) [lal] = Some (Cut cut_ex2) /\
+  cspecial_at (run (map OZRec rs_ex2 ++ us_ex2)) [lsub] = None /\
+  zf_state (zf_of_records rs_ex2) [lsub] <> None.
+Proof. repeat split; try (vm_compute; reflexivity). vm_compute. discriminate. Qed.
+
+(* Against the zone rebuilt from the final records [rs']: every premise is about
+   record lists / their grouped tables, none about trees.  The last premise says
+   that the delegations (NS, DS, glue in table order) and aliases of [rs'] are
+   what the operations make of those of [rs]. *)
+Theorem history_vs_rebuilt rs us rs' :
+  accepted rs = true -> buildable (zf_of_records rs) = true -> forallb ext_safe_op us = true ->
+  accepted rs' = true -> buildable (zf_of_records rs') = true ->
+  (forall p, rrsets_at (run (map OZRec rs ++ us)) p = rrsets_at (run (map OZRec rs')) p) ->
+  (forall p, zf_state (zf_of_records rs') p = sp_final us (zf_state (zf_of_records rs)) p) ->
+  forall q qt, query (run (map OZRec rs ++ us)) q qt = query (run (map OZRec rs')) q qt.
+Proof.
+  intros Ha Hb Hu Ha' Hb' HR HS.
+  apply ext_safe_history_independent; auto.
+  - apply zone_file_wfu. apply zone_file_only_map.
+  - intro p. rewrite zone_file_state by assumption. apply HS.
+  - rewrite zone_file_state by assumption. unfold zf_state, info_at_g, cut_at_g. simpl.
+    destruct (accepted_records_build rs' Ha') as (Hwf & _ & _). rewrite Hb' in Hwf.
+    destruct (wf_zone_parts _ Hwf) as (_ & _ & _ & _ & HwC & HwA).
+    rewrite (wf_cut_apex _ HwC), (wf_cname_apex _ _ HwA). reflexivity.
+Qed.
